@@ -43,6 +43,8 @@ Tables(r) == (IF r.mB > 1 THEN 1 ELSE 0) + r.sp
 Chk(props, name, e, cond) == IF cond THEN TRUE ELSE PrintT(<<"MONITOR-FAIL", props, name, l, e.op>>)
 
 Panicked(e) == e.res.t = "panic"
+\* table allocations made by the call (not measurable while rayon worker threads are alive)
+AL(e) == IF HasF(e, "par") THEN 0 ELSE e.cost.al
 Faulted(e) == HasF(e, "fault")
 
 (***************************************************************************)
@@ -78,7 +80,7 @@ GlobalMon(e, la) ==
     /\ Chk("C05", "no_use_of_dead_object", e, e.led.dead = <<>>)
     /\ Chk("C06", "no_double_drop", e, e.led.dd = <<>>)
     /\ Chk("C06", "no_shared_objects", e, SumIds(e.st, 1) = Cardinality(AllIds(e.st)))
-    /\ Chk("C03", "live_table_allocations", e, e.cost.live = SumTables(e.st, 1) + la)
+    /\ Chk("C03", "live_table_allocations", e, HasF(e, "par") \/ e.cost.live = SumTables(e.st, 1) + la)
 
 \* every slot other than those in W is bit-for-bit what it was (C11: no cross-slot effect;
 \* C02: read-only calls move nothing)
@@ -107,7 +109,7 @@ MovedOut(e, s) == Pre(s).oI - Post(e, s).oI
 \* lookups, removals, in-place updates: hash only the queried key, allocate nothing, move nothing
 CostQuiet(e, s, maxh) ==
     /\ Chk("C02", "lookup_hashes", e, e.cost.h <= maxh)
-    /\ Chk("C02", "lookup_allocates_nothing", e, e.cost.al = 0)
+    /\ Chk("C02", "lookup_allocates_nothing", e, AL(e) = 0)
     /\ Chk("C02", "lookup_moves_nothing", e,
            (Alive(e.st, s) /\ Alive(snap, s)) =>
               /\ Post(e, s).mB = Pre(s).mB
@@ -117,7 +119,7 @@ CostQuiet(e, s, maxh) ==
 CostKeyAdd(e, s, removedFromOld) ==
     /\ Chk("C02", "R_is_8_or_test_4", e, R \in {4, 8})
     /\ Chk("C02", "keyadd_hashes", e, e.cost.h <= R + 2)
-    /\ Chk("C02", "keyadd_allocs", e, e.cost.al <= 1)
+    /\ Chk("C02", "keyadd_allocs", e, AL(e) <= 1)
     /\ Chk("C02", "keyadd_moves", e, (IsSplit(Pre(s)) => MovedOut(e, s) - removedFromOld <= R))
 \* C03: a key-adding call on a split map moves min(R, remaining) and frees the emptied old table
 Progress(e, s, removedFromOld) ==
@@ -144,7 +146,7 @@ H_New(e) ==
        THEN Chk("C10", "with_capacity_panics_only_on_overflow", e, e.res.class = "capacity_overflow" /\ e.big = 1)
        ELSE /\ Chk("C10", "with_capacity", e, Alive(e.st, e.s) /\ e.big = 0 /\ Post(e, e.s).cap >= e.cap
                                                /\ Post(e, e.s).len = 0 /\ ~IsSplit(Post(e, e.s)))
-            /\ Chk("C02", "new_allocs", e, e.cost.al <= 1 /\ (e.cap = 0 => e.cost.al = 0))
+            /\ Chk("C02", "new_allocs", e, AL(e) <= 1 /\ (e.cap = 0 => AL(e) = 0))
             /\ DropsAre(e, {})
 
 H_Insert(e) ==
@@ -165,7 +167,7 @@ H_Insert(e) ==
           \* counters only (large maps)
           /\ Chk("C01", "insert_len", e, Post(e, s).len = Pre(s).len + (IF e.res.t = "none" THEN 1 ELSE 0))
           /\ (e.res.t = "none" => (CostKeyAdd(e, s, 0) /\ Progress(e, s, 0) /\ CapMono(e, s)))
-          /\ (e.res.t = "some" => Chk("C02", "overwrite_cost", e, e.cost.h <= R + 1 /\ e.cost.al = 0 /\ MovedOut(e, s) <= R))
+          /\ (e.res.t = "some" => Chk("C02", "overwrite_cost", e, e.cost.h <= R + 1 /\ AL(e) = 0 /\ MovedOut(e, s) <= R))
 
 GetMutKinds == {"get_mut", "get_key_value_mut"}
 GetKeyKinds == {"get_key_value", "get_key_value_mut", "raw_key", "raw_key_hashed", "raw_hash"}
@@ -219,7 +221,7 @@ H_Clear(e) ==
     /\ NoPanic(e)
     /\ Chk("C01,C13", "clear_empties", e, Post(e, s).len = 0 /\ Post(e, s).empty = 1)
     /\ Chk("C03", "clear_frees_old_table", e, ~IsSplit(Post(e, s)))
-    /\ Chk("C02", "clear_cost", e, e.cost.h = 0 /\ e.cost.al = 0)
+    /\ Chk("C02", "clear_cost", e, e.cost.h = 0 /\ AL(e) = 0)
     /\ IsFull(Pre(s)) => DropsAre(e, Ids(Cont(Pre(s))))
 
 \* the numeric value of a usize argument, mapped into TLC's range:  x |-> Anchor - (limit - x)
@@ -231,7 +233,7 @@ H_Capacity(e) ==
     IN
     /\ Frame(e, {s})
     /\ DropsAre(e, {})
-    /\ Chk("C02", "capacity_call_hashes_nothing_new", e, e.cost.al <= 1)
+    /\ Chk("C02", "capacity_call_hashes_nothing_new", e, AL(e) <= 1)
     /\ Chk("C01,C10", "capacity_call_keeps_contents", e,
            post.len = pre.len /\ ((IsFull(pre) /\ IsFull(post)) => Cont(post) = Cont(pre)))
     /\ CASE e.op \in {"Reserve", "TryReserve"} ->
@@ -244,7 +246,7 @@ H_Capacity(e) ==
                  ELSE Chk("C10", "try_reserve_err_only_on_overflow", e,
                           e.op = "TryReserve" /\ ~small /\ e.res.t = "err_overflow")
               /\ Chk("C02", "reserve_fast_path_is_free", e,
-                     (small /\ pre.mC - pre.mI > pre.oI + e.n) => (e.cost.h = 0 /\ e.cost.al = 0 /\ post = pre))
+                     (small /\ pre.mC - pre.mI > pre.oI + e.n) => (e.cost.h = 0 /\ AL(e) = 0 /\ post = pre))
               /\ Chk("C02", "reserve_unsplit_is_incremental", e,
                      (small /\ ~IsSplit(pre)) => e.cost.h = 0)
          [] OTHER ->
@@ -261,7 +263,7 @@ H_Retain(e) ==
     LET s == e.s IN
     /\ Frame(e, {s})
     /\ NoPanic(e)
-    /\ Chk("C02", "retain_cost", e, e.cost.h = 0 /\ e.cost.al = 0)
+    /\ Chk("C02", "retain_cost", e, e.cost.h = 0 /\ AL(e) = 0)
     /\ (BothFull(e, s) /\ ~Panicked(e)) =>
         LET E == Cont(Pre(s))
             M == Mutated(E, e.calls)
@@ -281,7 +283,7 @@ H_DrainFilter(e) ==
     LET s == e.s IN
     /\ Frame(e, {s})
     /\ NoPanic(e)
-    /\ Chk("C02", "drain_filter_cost", e, e.cost.h = 0 /\ e.cost.al = 0)
+    /\ Chk("C02", "drain_filter_cost", e, e.cost.h = 0 /\ AL(e) = 0)
     /\ FreesEmptied(e, s)
     /\ (BothFull(e, s) /\ ~Panicked(e)) =>
         LET E == Cont(Pre(s))
@@ -314,7 +316,7 @@ H_Drain(e) ==
     /\ NoPanic(e)
     /\ Chk("C08,C01", "drain_leaves_empty_usable_map", e,
            Post(e, s).len = 0 /\ ~IsSplit(Post(e, s)) /\ Post(e, s).cap >= 0)
-    /\ Chk("C02", "drain_cost", e, e.cost.h = 0 /\ e.cost.al = 0)
+    /\ Chk("C02", "drain_cost", e, e.cost.h = 0 /\ AL(e) = 0)
     /\ IsFull(Pre(s)) =>
         LET E == Cont(Pre(s)) IN
         /\ Chk("C08", "drain_yields_each_once", e,
@@ -327,7 +329,7 @@ H_IntoIter(e) ==
     /\ Frame(e, {s})
     /\ NoPanic(e)
     /\ Chk("C08", "into_iter_consumes_map", e, ~Alive(e.st, s))
-    /\ Chk("C02", "into_iter_cost", e, e.cost.h = 0 /\ e.cost.al = 0)
+    /\ Chk("C02", "into_iter_cost", e, e.cost.h = 0 /\ AL(e) = 0)
     /\ IsFull(Pre(s)) =>
         LET E == Cont(Pre(s)) IN
         /\ Chk("C08", "into_iter_yields_each_once", e,
@@ -392,7 +394,7 @@ H_Extend(e) ==
     LET s == e.s IN
     /\ Frame(e, {s})
     /\ NoPanic(e)
-    /\ Chk("C02", "extend_allocs", e, e.cost.al <= Len(e.objs) + 2)
+    /\ Chk("C02", "extend_allocs", e, AL(e) <= Len(e.objs) + 2)
     /\ ((e.op = "FromIter" \/ BothFull(e, s)) /\ ~Panicked(e) /\ Alive(e.st, s)) =>
         LET X == InsertAll([E |-> IF e.op = "FromIter" THEN {} ELSE Cont(Pre(s)), drops |-> {}], e.objs, 1) IN
         /\ ContentsAre(e, s, X.E)
@@ -423,7 +425,7 @@ H_Eq(e) ==
     /\ Frame(e, {})
     /\ NoPanic(e)
     /\ DropsAre(e, {})
-    /\ Chk("C02", "eq_allocates_nothing", e, e.cost.al = 0)
+    /\ Chk("C02", "eq_allocates_nothing", e, AL(e) = 0)
     /\ (IsFull(Pre(e.s)) /\ IsFull(Pre(e.d)) /\ ~Panicked(e)) =>
         Chk("C14,C11,C13", "eq_is_content_equality", e,
             (e.res.b = 1) <=> ({<<x[1], x[2]>> : x \in Cont(Pre(e.s))} = {<<x[1], x[2]>> : x \in Cont(Pre(e.d))}))
@@ -687,6 +689,7 @@ H_SAlg(e) ==
           [] e.kind = "is_superset" -> Chk("C13", "is_superset", e, (e.res.b = 1) <=> (B \subseteq A))
           [] e.kind = "is_disjoint" -> Chk("C13", "is_disjoint", e, (e.res.b = 1) <=> (A \cap B = {}))
 
+
 (***************************************************************************)
 (* C07: an operation interrupted by a panic injected at one callback       *)
 (*   fault = [kind: 0 Hash | 1 Eq | 2 Clone | 3 closure, at, of, fired, victim]  *)
@@ -735,6 +738,106 @@ H_Fault(e) ==
                  [] OTHER -> lost = {})
 
 (***************************************************************************)
+(* Debug, rayon and serde                                                  *)
+(***************************************************************************)
+KV(E) == {<<x[1], x[2]>> : x \in E}
+H_Debug(e) ==
+    /\ Frame(e, {})
+    /\ NoPanic(e)
+    /\ IsFull(Pre(e.s)) =>
+        Chk("C14", "debug_shows_contents", e,
+            ToSet(e.dbg) = KV(Cont(Pre(e.s))) /\ Len(e.dbg) = Cardinality(Cont(Pre(e.s))))
+
+\* visits: <<k, v, kid, vid, worker>>
+VisitEl(kind, v) ==
+    CASE kind = "par_keys" -> <<v[1], 0, v[3], 0>>
+      [] kind \in {"par_values", "par_values_mut"} -> <<0, v[2], 0, v[4]>>
+      [] OTHER -> <<v[1], v[2], v[3], v[4]>>
+ParProj(kind, x) ==
+    CASE kind = "par_keys" -> <<x[1], 0, x[3], 0>>
+      [] kind \in {"par_values", "par_values_mut"} -> <<0, x[2], 0, x[4]>>
+      [] OTHER -> x
+H_Par(e) ==
+    LET s == e.s
+        mut == e.kind \in {"par_iter_mut", "par_values_mut", "mut_into_par"} /\ HasF(e, "add")
+    IN
+    /\ Frame(e, IF mut THEN {s} ELSE {})
+    /\ NoPanic(e)
+    /\ DropsAre(e, {})
+    /\ Chk("C15", "par_workers_within_pool", e, \A i \in DOMAIN e.visits : e.visits[i][5] < e.threads)
+    /\ BothFull(e, s) =>
+        LET E == Cont(Pre(s))
+            After == IF mut THEN {<<x[1], (x[2] + e.add) % 1000, x[3], x[4]>> : x \in E} ELSE E
+            Shown == {ParProj(e.kind, x) : x \in After}
+            Seen == {VisitEl(e.kind, e.visits[i]) : i \in DOMAIN e.visits}
+            ambiguous == e.kind \in {"par_values", "par_values_mut"} /\ Hdr.elem # "heap"
+        IN
+        /\ Chk("C15", "par_visits_each_element_once", e,
+               /\ Len(e.visits) = Cardinality(E)
+               /\ (~ambiguous => (Seen = Shown /\ Cardinality(Seen) = Len(e.visits))))
+        /\ Chk("C15,C01", "par_mut_writes_persist", e, IsFull(Post(e, s)) => Cont(Post(e, s)) = After)
+
+H_ParEq(e) ==
+    /\ Frame(e, {})
+    /\ NoPanic(e)
+    /\ (IsFull(Pre(e.s)) /\ IsFull(Pre(e.d)) /\ ~Panicked(e)) =>
+        Chk("C15", "par_eq_is_content_equality", e,
+            (e.res.b = 1) <=> (KV(Cont(Pre(e.s))) = KV(Cont(Pre(e.d)))))
+
+H_ParExtend(e) ==
+    LET s == e.s IN
+    /\ Frame(e, {s})
+    /\ NoPanic(e)
+    /\ ((e.op = "FromPar" \/ BothFull(e, s)) /\ ~Panicked(e) /\ Alive(e.st, s)) =>
+        LET X == InsertAll([E |-> IF e.op = "FromPar" THEN {} ELSE Cont(Pre(s)), drops |-> {}], e.objs, 1) IN
+        /\ Chk("C15", "par_extend_equals_sequential_extend", e, IsFull(Post(e, s)) => KV(Cont(Post(e, s))) = KV(X.E))
+        /\ Chk("C15", "par_extend_len", e, Post(e, s).len = Cardinality(X.E))
+        /\ Chk("C06", "par_extend_drops", e, ToSet(e.led.drop) \subseteq NewIds(e) \cup Ids(Cont(Pre(s)))
+                                            /\ Len(e.led.drop) = Cardinality(ToSet(e.led.drop)))
+
+H_SPar(e) ==
+    /\ Frame(e, {})
+    /\ NoPanic(e)
+    /\ (IsFull(Pre(e.s)) /\ IsFull(Pre(e.d)) /\ ~Panicked(e)) =>
+        LET A == Keys(Cont(Pre(e.s)))
+            B == Keys(Cont(Pre(e.d)))
+            Y == {e.visits[i][1] : i \in DOMAIN e.visits}
+            once == Cardinality(Y) = Len(e.visits)
+        IN
+        CASE e.kind = "par_union" -> Chk("C15", "par_union", e, once /\ Y = A \cup B)
+          [] e.kind = "par_intersection" -> Chk("C15", "par_intersection", e, once /\ Y = A \cap B)
+          [] e.kind = "par_difference" -> Chk("C15", "par_difference", e, once /\ Y = A \ B)
+          [] e.kind = "par_symmetric_difference" -> Chk("C15", "par_symmetric_difference", e, once /\ Y = SymDiffS(A, B))
+          [] e.kind = "par_is_subset" -> Chk("C15", "par_is_subset", e, (e.res.b = 1) <=> (A \subseteq B))
+          [] e.kind = "par_is_superset" -> Chk("C15", "par_is_superset", e, (e.res.b = 1) <=> (B \subseteq A))
+          [] e.kind = "par_is_disjoint" -> Chk("C15", "par_is_disjoint", e, (e.res.b = 1) <=> (A \cap B = {}))
+
+\* Serde: toks = <<"map"|"seq", n>>, <<"u32", x>>..., <<"end", 0>>; order = iteration order <<k, v>>
+H_Serde(e) ==
+    LET s == e.s
+        d == e.d
+        isMap == Pre(s).ty = "map"
+        n == Len(e.toks)
+        payload == [i \in 1..(n - 2) |-> e.toks[i + 1][2]]
+        expected == IF isMap THEN [i \in 1..(2 * Len(e.order)) |-> e.order[(i + 1) \div 2][IF i % 2 = 1 THEN 1 ELSE 2]]
+                    ELSE [i \in 1..Len(e.order) |-> e.order[i][1]]
+    IN
+    /\ Frame(e, {d})
+    /\ NoPanic(e)
+    /\ Chk("C16", "serialize_leaves_source_unchanged", e, s # d => Post(e, s) = Pre(s))
+    /\ IsFull(Pre(s)) =>
+        LET E == Cont(Pre(s)) IN
+        /\ Chk("C16", "serialize_emits_exact_length", e,
+               n >= 2 /\ e.toks[1][1] = (IF isMap THEN "map" ELSE "seq") /\ e.toks[1][2] = Cardinality(E)
+               /\ e.toks[n][1] = "end")
+        /\ Chk("C16", "serialize_emits_each_element_once_in_iteration_order", e,
+               /\ Len(e.order) = Cardinality(E) /\ ToSet(e.order) = KV(E)
+               /\ payload = expected)
+        /\ Chk("C16", "deserialize_yields_equal_collection", e,
+               (Alive(e.st, d) /\ IsFull(Post(e, d))) =>
+                   (KV(Cont(Post(e, d))) = KV(E) /\ Post(e, d).len = Cardinality(E)))
+
+(***************************************************************************)
 (* The trace behaviour                                                     *)
 (***************************************************************************)
 Dispatch(e) ==
@@ -756,6 +859,12 @@ Dispatch(e) ==
       [] e.op = "Entry" -> H_Entry(e)
       [] e.op = "RawEntry" -> H_RawEntry(e)
       [] e.op = "SAlg" -> H_SAlg(e)
+      [] e.op = "Debug" -> H_Debug(e)
+      [] e.op = "Par" -> H_Par(e)
+      [] e.op = "ParEq" -> H_ParEq(e)
+      [] e.op \in {"ParExtend", "FromPar"} -> H_ParExtend(e)
+      [] e.op = "SPar" -> H_SPar(e)
+      [] e.op = "Serde" -> H_Serde(e)
       [] e.op \in {"SInsert", "SReplace", "STake", "SRemove", "SContains", "SGet",
                    "SGetOrInsert", "SGetOrInsertOwned", "SGetOrInsertWith"} -> H_SetOp(e)
       [] OTHER -> Chk("TOOL", "unknown_op", e, FALSE)
@@ -784,7 +893,7 @@ Step ==
                 /\ GlobalMon(e, leakAllocs) = TRUE
                 /\ snap' = e.st /\ leakIds' = ToSet(e.leaked) /\ UNCHANGED leakAllocs
          [] e.op = "EndRun" ->
-                /\ Chk("C06", "nothing_leaks", e, ToSet(e.live_ids) = leakIds /\ e.live_allocs = leakAllocs) = TRUE
+                /\ Chk("C06", "nothing_leaks", e, ToSet(e.live_ids) = leakIds /\ (HasF(e, "par") \/ e.live_allocs = leakAllocs)) = TRUE
                 /\ UNCHANGED <<snap, leakIds, leakAllocs>>
          [] OTHER ->
                 LET lk == LeakOf(e) IN
